@@ -19,12 +19,13 @@ GoA == {i \in 1..Len(Snaps) : Snaps[i].at = "go-after"}
 (* first problem of the run, as <<rule, snapshot index>>, or <<"", 0>> *)
 Problem ==
     LET inv == {i \in 1..Len(Snaps) : FirstBroken(Snaps[i]) # ""}
-        pairs == {<<t, i, j>> \in Tags \X (1..Len(Snaps)) \X (1..Len(Snaps)) :
-                     i \in Lua(t) /\ j \in Lua(t) /\ i < j /\ (\A k \in Lua(t) : ~(i < k /\ k < j)) /\ SamePlace(Snaps[i], Snaps[j]) # ""}
+        NextSame(i) == LET S == {j \in (i + 1)..Len(Snaps) : Snaps[j].at = "lua" /\ Snaps[j].tag = Snaps[i].tag}
+                       IN IF S = {} THEN 0 ELSE CHOOSE j \in S : \A k \in S : j <= k
+        pairs == {i \in 1..Len(Snaps) : Snaps[i].at = "lua" /\ NextSame(i) # 0 /\ SamePlace(Snaps[i], Snaps[NextSame(i)]) # ""}
     IN IF inv # {} THEN LET i == CHOOSE x \in inv : \A y \in inv : x <= y IN <<FirstBroken(Snaps[i]), i>>
        ELSE IF GoB # {} /\ GoA # {} /\ GoBracket(Snaps[CHOOSE x \in GoB : TRUE], Snaps[CHOOSE x \in GoA : TRUE], Data[idx].nres) # ""
             THEN <<GoBracket(Snaps[CHOOSE x \in GoB : TRUE], Snaps[CHOOSE x \in GoA : TRUE], Data[idx].nres), CHOOSE x \in GoA : TRUE>>
-       ELSE IF pairs # {} THEN LET p == CHOOSE x \in pairs : TRUE IN <<SamePlace(Snaps[p[2]], Snaps[p[3]]), p[3]>>
+       ELSE IF pairs # {} THEN LET i == CHOOSE x \in pairs : \A y \in pairs : x <= y IN <<SamePlace(Snaps[i], Snaps[NextSame(i)]), NextSame(i)>>
        ELSE <<"", 0>>
 
 Verdict == PrintT("VERDICT " \o ToJson([id |-> Data[idx].id, ok |-> Problem[1] = "", rule |-> Problem[1], at |-> Problem[2], n |-> Len(Snaps)]))
